@@ -290,6 +290,19 @@ class C04(Prop):
     def cases(self, ctx):
         rng = ctx.rng
         while True:
+            if rng.random() < 0.08:
+                # the same through rimupy: trusted inputs (prepended text and files, ~/.rimurc, layout header) at safe mode 0, then an
+                # untrusted source with definition and option elements on standard input or in named files at --safe-mode N; the
+                # tables after the run must be those of the run with blank untrusted inputs
+                lines = [gen.definition_line(rng) for _ in range(rng.randint(1, 4))] + rng.sample(gen.CARRIER_USES, 1)
+                argv = ['--safe-mode', str(rng.randint(1, 15))]
+                argv += rng.choice([[], ['--layout', 'plain'], ['--prepend', trusted_preamble(rng) or "{t} = 'T'"],
+                                    ['--prepend-file', 'pre.rmu'], ['--prepend', '{t} = \'T\'', '--prepend-file', 'pre.rmu']])
+                files = {'pre.rmu': trusted_preamble(rng) or '*trusted*'} if 'pre.rmu' in argv else {}
+                where = rng.choice(['stdin', 'stdin-dash', 'file', 'two-files'])
+                yield {'cli': True, 'argv': argv, 'files': files, 'untrusted': clean('\n'.join(lines)), 'where': where,
+                       'rimurc': rng.choice([None, None, "{rc} = 'RC'"])}
+                continue
             pre = [{'src': trusted_preamble(rng), 'safeMode': 0, 'callback': True} for _ in range(rng.randint(0, 2))]
             lines = [gen.definition_line(rng) for _ in range(rng.randint(1, 5))]
             lines.insert(rng.randrange(len(lines) + 1), hostile_source(rng, ctx.repo))
@@ -317,7 +330,47 @@ class C04(Prop):
             yield {'preamble': pre, 'untrusted': {'src': clean('\n'.join(lines)), 'safeMode': mode, 'callback': True},
                    'probe': {'src': clean(gen.document(rng, 1, 2)), 'safeMode': rng.choice([0, mode]), 'callback': True}}
 
+    def execute_cli(self, case, ctx, res):
+        from .props_cli import CliImpl
+        cli = CliImpl(ctx.impl)
+        states = []
+        for text in (case['untrusted'], ''):
+            files = dict(case['files'])
+            argv = list(case['argv'])
+            stdin = ''
+            if case['where'] == 'stdin':
+                stdin = text
+            elif case['where'] == 'stdin-dash':
+                stdin = text
+                argv.append('-')
+            elif case['where'] == 'file':
+                files['doc.rmu'] = text
+                argv.append('doc.rmu')
+            else:
+                files['doc.rmu'] = text
+                files['two.rmu'] = text
+                argv += ['doc.rmu', 'two.rmu']
+            r = cli.run(argv, files, stdin, case['rimurc'])
+            if 'Traceback' in r['stderr']:
+                res.count('cli_traceback')
+                return
+            states.append(ctx.impl.state())
+        res.oracle_checks += 1
+        res.count('cli')
+        mode = int(case['argv'][1])
+        names = {1: 'htmlReplacement', 3: 'quote definitions', 4: 'replacement definitions', 5: 'delimited block definitions'}
+        if not (mode & 8):
+            names[6] = 'macro definitions'
+        for k, name in names.items():
+            if states[0][k] != states[1][k]:
+                res.violation('untrusted input of rimupy (--safe-mode %d, %s) changed the %s' % (mode, case['where'], name), case,
+                              [short(states[1][k]), short(states[0][k])])
+                return
+        res.nontrivial(case['untrusted'])
+
     def execute(self, case, ctx, res):
+        if case.get('cli'):
+            return self.execute_cli(case, ctx, res)
         pre = case['preamble'] or [{'src': '', 'safeMode': 0, 'callback': True}]
         outs_i, outs_m, ok = run_session(ctx, pre, res, case)
         if not ok:
@@ -416,7 +469,9 @@ class C05(Prop):
         while True:
             n += 1
             hist = [self.history_step(rng, ctx) for _ in range(rng.randint(0, 4))]
-            final = {'src': clean(gen.any_source(rng, ctx.repo)), 'safeMode': rng.choice([None, 0, 1, 3, 9, 15]),
+            final = {'src': clean(gen.any_source(rng, ctx.repo)),
+                     # (an illegal value is reported and leaves the mode the reset established)
+                     'safeMode': rng.choice([None, 0, 1, 3, 9, 15, 99, -1, 'junk', 2.5, True, '']),
                      'reset': rng.choice([True, True, 'true']), 'htmlReplacement': rng.choice([None, None, 'X']),
                      # without a callback of its own the call reports to nobody (not to a callback of the history either)
                      'callback': rng.random() < 0.7}
